@@ -10,7 +10,8 @@
 EXTENDS Lattice, TLC, Json, IOUtils
 
 CONSTANTS NBlocks, K, CondMax
-Traces == JsonDeserialize(IOEnv.TRACE_FILE).traces
+ASSUME TLCSet(1, JsonDeserialize(IOEnv.TRACE_FILE).traces)     \* parsed once, not once per worker
+Traces == TLCGet(1)
 
 VARIABLES blk, tid
 vars == <<blk, tid>>
